@@ -193,6 +193,33 @@ func init() {
 						c.Direct = append(c.Direct, DirectViolation{What: "directive form compiles differently", Sig: "c02-directive-compile", Sample: t.Src()})
 					}
 				}
+				// one configuration OBJECT compiled again and again: a source's directives hold for that compilation only -
+				// the next source without directives is compiled under the configuration's own switches again
+				if r.Intn(3) == 0 {
+					home := r.Intn(16)
+					rcS := &RunCfg{Opts: optSubset(home, true), Stateless: st, Costs: costs, Shadow: shadow}
+					vs := map[string]bool{}
+					collectVars(t, vs)
+					for n := range vs {
+						rcS.VarNames = append(rcS.VarNames, n)
+					}
+					sort.Strings(rcS.VarNames)
+					bS := rcS.Build()
+					for k := 0; k < 3; k++ {
+						m := r.Intn(16)
+						d := directiveFor(m, r)
+						if r.Bool() {
+							d = []string{"; a rule\n", ";; note\n\n", ""}[r.Intn(3)] + directiveFull(m, r)
+						}
+						compileSafe(bS.Conf, d+t.Src())
+					}
+					if e, err, pan := compileSafe(bS.Conf, t.Src()); pan == nil && err == nil && runs[home].cerr == nil && runs[home].pan == nil {
+						if got := eval.Dump(e); got != runs[home].dump {
+							c.Direct = append(c.Direct, DirectViolation{What: fmt.Sprintf("a configuration with subset %d compiles a directive-free source differently after it compiled sources WITH directives (their directives stuck to the caller's Config)", home), Sig: "c02-sticky-directive",
+								Sample: map[string]interface{}{"source": t.Src(), "dump_fresh_config": runs[home].dump, "dump_reused_config": got}})
+						}
+					}
+				}
 				groups++
 				if succ >= 2 {
 					nontriv++
